@@ -85,7 +85,32 @@ class Frame:
         return object.__getattribute__(self, '_env').lookup(name) is not _MISSING
 
 
+class LoopTargetAfter:
+    """Value of the target variable of an abstractly executed `for` loop after the loop."""
+
+    def __init__(self, prev, model, ghost):
+        self.prev, self.model, self.ghost = prev, model, ghost
+
+
 class Interp:
+    def _resolve_loop_target(self, name, v, env):
+        vc = self.vc
+        if vc.choose(2, label=f'loop_target_after_loop:{name}') == 0:
+            # the body never ran
+            if hasattr(v.model, 'assume_empty'):
+                v.model.assume_empty(vc)
+            val = v.prev
+            if isinstance(val, LoopTargetAfter):
+                val = self._resolve_loop_target(name, val, env)
+            if val is _MISSING:
+                raise_py('UnboundLocalError', name, origin='loop target read after a loop that never ran')
+        else:
+            if not hasattr(v.model, 'some_element'):
+                raise Unsupported(f'loop target {name!r} read after its loop (no element model)')
+            val = v.model.some_element(vc, v.ghost)
+        env.assign(name, val)
+        return val
+
     def __init__(self, vc, program, envmodel):
         self.vc = vc
         self.prog = program
@@ -459,6 +484,7 @@ class Interp:
             raise Unsupported(f'for loop over abstract iterable without invariant at {self._lbl(s, "for")}')
         model = self.iter_model(it)
         ghost = model.start(vc)
+        before_loop_target = env.lookup(s.target.id) if isinstance(s.target, ast.Name) else _MISSING
         self._check_inv(spec, env, 'entry', ghost)
         self._havoc_locals(s, env, spec)
         ghost = model.havoc(vc, ghost)
@@ -480,6 +506,10 @@ class Interp:
             vc.stats['cut'] += 1
             raise PathEnd()
         model.finish(vc, ghost)                      # assumes "exhausted"
+        if isinstance(s.target, ast.Name):
+            # after the loop the target is the last element visited, or what it was before when the body never ran;
+            # resolved (by a path split) only if the code reads it
+            env.assign(s.target.id, LoopTargetAfter(before_loop_target, model, ghost))
         env.vars['__loop_ghost__'] = ghost
         if getattr(spec, 'at_exit', None):
             spec.at_exit(vc, Frame(env, ghost))
@@ -505,7 +535,7 @@ class Interp:
         if isinstance(it, MSet):
             return self.em.SetIterModel(it.s)
         if isinstance(it, MList) and it.items is None and 'elems' in it.g:
-            return self.em.ElemsIterModel(it.g['elems'])
+            return self.em.ElemsIterModel(it.g['elems'], distinct=it.g.get('distinct'))
         if hasattr(it, 'iter_model'):
             return it.iter_model(self)
         raise Unsupported(f'no iteration model for {it!r}')
@@ -662,6 +692,8 @@ class Interp:
 
     def e_Name(self, n, env):
         v = env.lookup(n.id)
+        if isinstance(v, LoopTargetAfter):
+            v = self._resolve_loop_target(n.id, v, env)
         if v is _MISSING:
             v = self.builtins.get(n.id, _MISSING)
             if v is _MISSING:
